@@ -105,8 +105,11 @@ def s_frame(draw):
 def s_case(draw):
     bufs = []
     for _ in range(draw(st.sampled_from([1, 1, 2, 3]))):
+        items = draw(st.lists(s_frame(), min_size=1, max_size=4))
+        if draw(gen.uint(0, 2)) == 0:  # the last frame ends close to, or exactly at, the end of its buffer (the next buffer starts with >= 400 noise samples)
+            items[-1] = dict(items[-1], gap=draw(st.one_of(st.sampled_from([0, 1, 2, 113, 114]), gen.uint(0, 239))))
         bufs.append({"lead": draw(st.one_of(st.sampled_from([400, 401]), gen.uint(400, 900))),
-                     "items": draw(st.lists(s_frame(), min_size=1, max_size=4)),
+                     "items": items,
                      "shape": draw(st.sampled_from(["zero", "constant", "uniform", "uniform", "two-level"])), "nseed": draw(gen.ubits(32)),
                      "rho": draw(st.one_of(gen.ufloat(0.0, 0.316), gen.ufloat(0.2, 0.316), st.sampled_from([0.0, 0.0, 0.25, 0.3159])))})
     return {"buffers": bufs, "rho": draw(st.one_of(gen.ufloat(0.0, 0.316), gen.ufloat(0.2, 0.316), st.sampled_from([0.0, 0.25, 0.3159])))}
